@@ -67,7 +67,7 @@ theorem run_fifo {s : St} (sched : List Nat) (h : FifoInv s) : FifoInv (run s sc
   | nil => exact h
   | cons k rest ih => exact ih (step_fifo k h)
 
-theorem init_fifo (elt wl : Bool) (tbl) (dtbl) (pre) (progs) : FifoInv (init elt wl tbl dtbl pre progs) := by
+theorem init_fifo (elt wl : Bool) (tbl) (dtbl) (pre) (again) (progs) : FifoInv (init elt wl tbl dtbl pre again progs) := by
   constructor <;> simp [init]
 
 /-! ## functor objects die inside the drain that ran them -/
@@ -100,7 +100,7 @@ theorem step_bury {s : St} (k : Nat) (h : BuryInv s) : BuryInv (step s k) := by
   · exact stepLoop_bury h
   · exact stepOther_bury k h
 
-theorem init_bury (elt wl : Bool) (tbl) (dtbl) (pre) (progs) : BuryInv (init elt wl tbl dtbl pre progs) := by
+theorem init_bury (elt wl : Bool) (tbl) (dtbl) (pre) (again) (progs) : BuryInv (init elt wl tbl dtbl pre again progs) := by
   constructor <;> simp [init]
 
 /-- the loop thread's step never changes another thread's record, whatever the order of "destroy the batch" and
